@@ -1,0 +1,78 @@
+//go:build verif
+
+package tsm1
+
+import "github.com/influxdata/influxdb/tsdb"
+
+// Thin wrappers for the verification harness (property C02, layer B): they build the
+// engine's cursors over given cache values and a KeyCursor the way
+// arrayCursorIterator.build<T>ArrayCursor and newKeyCursor-based iterators do.
+// bufLen replaces the result batch size (tsdb.DefaultMaxPointsPerBlock) so that batch
+// boundaries can be placed inside small TSM blocks.  No behaviour of their own.
+
+// VerifIntegerArrayCursor returns the integer array cursor for (cacheValues, kc).
+func VerifIntegerArrayCursor(asc bool, bufLen int, seek, end int64, cacheValues Values, kc *KeyCursor) tsdb.IntegerArrayCursor {
+	if asc {
+		c := newIntegerArrayAscendingCursor()
+		if bufLen > 0 {
+			c.res = tsdb.NewIntegerArrayLen(bufLen)
+		}
+		c.reset(seek, end, cacheValues, kc)
+		return c
+	}
+	c := newIntegerArrayDescendingCursor()
+	if bufLen > 0 {
+		c.res = tsdb.NewIntegerArrayLen(bufLen)
+	}
+	c.reset(seek, end, cacheValues, kc)
+	return c
+}
+
+// VerifFloatArrayCursor returns the float array cursor for (cacheValues, kc).
+func VerifFloatArrayCursor(asc bool, bufLen int, seek, end int64, cacheValues Values, kc *KeyCursor) tsdb.FloatArrayCursor {
+	if asc {
+		c := newFloatArrayAscendingCursor()
+		if bufLen > 0 {
+			c.res = tsdb.NewFloatArrayLen(bufLen)
+		}
+		c.reset(seek, end, cacheValues, kc)
+		return c
+	}
+	c := newFloatArrayDescendingCursor()
+	if bufLen > 0 {
+		c.res = tsdb.NewFloatArrayLen(bufLen)
+	}
+	c.reset(seek, end, cacheValues, kc)
+	return c
+}
+
+// VerifIntegerCursorAll drains the iterator-level integer cursor (newIntegerCursor) over
+// (cacheValues, kc): every (time, value) up to tsdb.EOF, at most max pairs.
+func VerifIntegerCursorAll(seek int64, asc bool, cacheValues Values, kc *KeyCursor, max int) (ts []int64, vs []int64) {
+	c := newIntegerCursor(seek, asc, cacheValues, kc)
+	defer c.close()
+	for len(ts) < max {
+		t, v := c.nextInteger()
+		if t == tsdb.EOF {
+			break
+		}
+		ts = append(ts, t)
+		vs = append(vs, v)
+	}
+	return ts, vs
+}
+
+// VerifFloatCursorAll is VerifIntegerCursorAll for float fields.
+func VerifFloatCursorAll(seek int64, asc bool, cacheValues Values, kc *KeyCursor, max int) (ts []int64, vs []float64) {
+	c := newFloatCursor(seek, asc, cacheValues, kc)
+	defer c.close()
+	for len(ts) < max {
+		t, v := c.nextFloat()
+		if t == tsdb.EOF {
+			break
+		}
+		ts = append(ts, t)
+		vs = append(vs, v)
+	}
+	return ts, vs
+}
